@@ -1247,6 +1247,12 @@ class Container:
             b[index] = total_quantity
 
         xs = numpy.linalg.solve(a[:n + 1], b[:n + 1])
+        # a solute whose quantity is stated has that quantity: taking it out of the solver's result again would bring in
+        # the cancellation error of (total - everything else), which for a trace in a large total is the whole amount
+        for row in range(n + 1):
+            entries = numpy.flatnonzero(a[row])
+            if len(entries) == 1 and entries[0] < n and b[row] != 0:
+                xs[entries[0]] = b[row] / a[row][entries[0]]
         if any(x <= 0 for x in xs):
             raise ValueError("Solution is impossible to create.")
         # an amount that vanishes when stored (rounded to the internal precision) is not a solution either
